@@ -65,7 +65,7 @@ inductive Ev where
 
 inductive Err where
   | notFound
-  | syntax
+  | syntaxErr
   | undefined
   | unmodelled
   deriving DecidableEq, Repr
@@ -156,7 +156,7 @@ def loadRaw (files : Files) (name : Name) (cls : Kind) : Res (List Node) :=
   | some f =>
     if f.kind ≠ cls then .err .unmodelled
     else match f.body with
-      | none => .err .syntax
+      | none => .err .syntaxErr
       | some b => .ok b
 
 /-! ## inline preparation (`Template._prepare` with `auto_reload` off) -/
@@ -190,11 +190,11 @@ def prepN (files : Files) (J : PJ) (inl : List Name) : Node → Cache → Res (L
           -- TemplateNotFound while preparing: the fallback is inlined; without one the include
           -- is left for run time (fix 5be244b)
           if hasFb then prepL files J inl fb c
-          else .ok ([.include (.static h) cls hasFb fb pos], c)
+          else (prepL files J inl fb c).bind fun r => .ok ([.include (.static h) cls hasFb r.1 pos], r.2)
         | some f =>
           if f.kind ≠ cls then .err .unmodelled
           else match f.body with
-            | none => .err .syntax
+            | none => .err .syntaxErr
             | some _ =>
               if name ∈ inl then
                 -- already in the stack of templates being processed: run-time include
@@ -233,7 +233,7 @@ def loadInl (files : Files) (name : Name) (cls : Kind) (c : Cache) : Res (List N
   | some f =>
     if f.kind ≠ cls then .err .unmodelled
     else match f.body with
-      | none => .err .syntax
+      | none => .err .syntaxErr
       | some _ => prepT files (prepFuel files) [name] name c
 
 /-! ## rendering (`_flatten` → `_match` → `_include` as one big step) -/
